@@ -259,6 +259,16 @@ Proof.
 Qed.
 Print Assumptions lexical_scoping_parameters_refuted.
 
+(* ---- finding F215: "what a function body defines is local to it" is FALSE of the faithful model - op_t::compile gives a
+   SCOPE body a bind_scope_t, whose define() writes into the enclosing scope as well, when the function is defined
+   (the model's single table).  Witnesses: vt = 1; fn(va) = (vt = 7; vt + 1); fn(2) + vt gives 15 (lexically 8 + 1 = 9), and
+   fn(va) = (vy = 7; vy + va); vy gives 7 although fn was never called and vy is unknown outside it. ---- *)
+Theorem lexical_scoping_local_definitions_refuted :
+  run false w_cp [] (text_tokens [118; 116; 32; 61; 32; 49; 59; 32; 102; 110; 40; 118; 97; 41; 32; 61; 32; 40; 118; 116; 32; 61; 32; 55; 59; 32; 118; 116; 32; 43; 32; 49; 41; 59; 32; 102; 110; 40; 50; 41; 32; 43; 32; 118; 116]) = Ok (Some (XV (w_num 15))) /\
+  run false w_cp [] (text_tokens [102; 110; 40; 118; 97; 41; 32; 61; 32; 40; 118; 121; 32; 61; 32; 55; 59; 32; 118; 121; 32; 43; 32; 118; 97; 41; 59; 32; 118; 121]) = Ok (Some (XV (w_num 7))).
+Proof. split; vm_compute; reflexivity. Qed.
+Print Assumptions lexical_scoping_local_definitions_refuted.
+
 (* ---- the tokenizer (token.cc; Model/ExprLex.v): `lex` reads the expression TEXT (byte list), the same bytes
    ledger gets.  ftok = the tokens with a fixed spelling: & && and | || or ( ) ! not != - -> + * ? : / div = == < <=
    > >= , ; if else true false; `fspell l` writes each token of l followed by k+1 blanks (k chosen per token);
